@@ -139,3 +139,68 @@ Proof.
   apply (WFw_put w ti t); auto.
   intros m Hm. left. apply (Permutation_in _ (Permutation_sym W2)). apply in_or_app. now right.
 Qed.
+
+(* ---- move_to ---- *)
+Lemma WF_move_in t n target nb t' s tch cur :
+  WF t -> move_in t n target nb = Some t' ->
+  get_node n (forest_of t) = Some s -> children_of target (forest_of t) = Some tch ->
+  parent_of n (forest_of t) = Some cur ->
+  negb (Nat.eqb cur target) && existsb (fun c => did_eqb (rdid c) (rdid s)) tch = false ->
+  WF t' /\ Permutation (ids (forest_of t)) (ids (forest_of t')).
+Proof.
+  intros H M Gn Gc Gp U. unfold move_in in M. set (f := forest_of t) in *.
+  destruct (detach n f) as [[s' f1]|] eqn:D; [|discriminate].
+  destruct (detach_spec n f s' f1 D) as (q0 & a & b & G & -> & R & P).
+  destruct (get_node_spec n f s Gn) as (Ps & Rs).
+  assert (s' = s) by (apply (node_unique f); auto; [apply H|congruence]). subst s'.
+  set (f1 := upd_ch q0 (fun _ => a ++ b) f) in *.
+  destruct (parent_path target f1) as [pq|] eqn:Pp; [|discriminate]. injection M as <-.
+  destruct (parent_path_get target f1 pq Pp) as (tch1 & G1).
+  apply (WF_relink t q0 a s b pq tch1 nb H G G1).
+  (* the moved node's data_id does not occur among its new siblings *)
+  intros X. apply in_map_iff in X. destruct X as (x & Ex & Hx).
+  assert (ND := wf_nodup t H). assert (Z := wf_pos t H). fold f in ND, Z.
+  assert (P1 := rows_cut_perm q0 f a [s] b 0 G). fold f1 in P1. rewrite rows_single in P1.
+  assert (Row1 : In (target, rid x, rinfo x) (rows 0 f)).
+  { apply (Permutation_in _ (Permutation_sym P1)). apply in_or_app. right.
+    rewrite <- (parent_path_owner target f1 pq tch1 Pp G1). now apply rows_child_in with (ch := tch1). }
+  unfold children_of in Gc. destruct (parent_path target f) as [pq0|] eqn:Pp0; [|discriminate].
+  assert (O0 := parent_path_owner target f pq0 tch Pp0 Gc).
+  rewrite <- O0 in Row1. destruct (rows_owner_member pq0 f tch _ _ ND Z Gc Row1) as (x' & Hx' & Rx' & Ix').
+  assert (Dx' : rdid x' = rdid s) by (unfold rdid in *; congruence).
+  destruct (Nat.eqb cur target) eqn:Ec.
+  - apply Nat.eqb_eq in Ec. subst cur.
+    assert (Row0 : In (owner q0 f 0, n, rinfo s) (rows 0 f)).
+    { apply (Permutation_in _ (Permutation_sym P1)). apply in_or_app. left. rewrite rows_t_unfold, Rs. now left. }
+    apply (parent_of_rows n f target ND) in Gp. destruct Gp as (inf & Rowp).
+    assert (Eq := rows_id_unique f 0 _ _ ND Rowp Row0 eq_refl). injection Eq as Eo Ei.
+    rewrite <- Eo, <- O0 in Row0. destruct (rows_owner_member pq0 f tch _ _ ND Z Gc Row0) as (s2 & Hs2 & Rs2 & Is2).
+    assert (Ds2 : rdid s2 = rdid s) by (unfold rdid; congruence).
+    assert (Su := SU_top _ (SU_get pq0 f tch (wf_su t H) Gc)).
+    assert (x' = s2) by (apply (NoDup_map_inj rdid tch); auto; congruence). subst s2.
+    (* rid x = n, but x is in f1 and n is in the detached branch *)
+    assert (NN : NoDup (map r_id (rows_t (owner q0 f 0) s ++ rows 0 f1))).
+    { rewrite <- (Permutation_map r_id P1), rows_ids. exact ND. }
+    rewrite map_app, rows_t_ids, rows_ids in NN. apply (NoDup_app_disj _ _ n NN).
+    + rewrite <- Rs. unfold ids_t. apply in_map. apply pre_in_self.
+    + rewrite <- Rs2, Rx'. unfold ids. apply in_map. apply (get_ch_pre pq f1 tch1 G1). now apply in_pre_f_top.
+  - cbn [negb andb] in U. assert (Y : existsb (fun c => did_eqb (rdid c) (rdid s)) tch = true).
+    { apply existsb_exists. exists x'. split; [assumption|]. now apply did_eqb_eq. }
+    congruence.
+Qed.
+
+Theorem WFw_op_move w ti n tti target b : WFw w -> WFw (snd (op_move w ti n tti target b)).
+Proof.
+  intros H. unfold op_move. destruct (get_tree w ti) as [t|] eqn:Gt; [|exact H].
+  destruct (typed t); [exact H|]. destruct (negb (Nat.eqb ti tti)); [exact H|].
+  destruct (get_node n (forest_of t)) as [s|] eqn:Gn; [|exact H].
+  destruct (children_of target (forest_of t)) as [tch|] eqn:Gc; [|exact H].
+  destruct (parent_of n (forest_of t)) as [cur|] eqn:Gp; [|exact H].
+  destruct (is_desc_or_self n target (forest_of t)); [exact H|].
+  destruct (negb (before_ok (norm_before b) tch)); [exact H|].
+  match goal with |- context [if ?c then (Err EUnique, w) else _] => destruct c eqn:U end; [exact H|].
+  destruct (move_in t n target (norm_before b)) as [t'|] eqn:M; [|exact H].
+  cbn [snd]. unfold put_tree. assert (Wt := WFw_tree w ti t H Gt).
+  destruct (WF_move_in t n target _ t' s tch cur Wt M Gn Gc Gp U) as (W' & P).
+  apply (WFw_put w ti t); auto. intros m Hm. left. now apply (Permutation_in _ (Permutation_sym P)).
+Qed.
